@@ -2,6 +2,9 @@
 
 fpdec-core: 128x128 -> 256 bit multiplication, 256/64 and 256/128 bit division, the floor
 sign fix-ups on top of them, and the two rounded callers used by mul/div (C02/C03/C04).
+
+Contracts (`contracts()`) are reusable as callee contracts: `add_wide_items(u)` emits them as
+external_body stubs into another unit (their bodies are verified here, in the home unit).
 """
 from vgen import Unit, Contract as C, Loop
 import core_kernel
@@ -10,6 +13,47 @@ X256 = 'u256(*old(xh) as int, *old(xl) as int)'
 Q256 = 'u256(*final(xh) as int, *final(xl) as int)'
 
 BV = 'broadcast use lemma_shr64, lemma_lo64, lemma_shl64;'
+
+# numerator / modulus of the two sign fix-ups
+N_SH = '(x * pow10(p as nat))'
+N_MUL = '(x1 * x2)'
+
+
+def _floor_posts(tag, num, den, neg_divisor=False):
+    """Property statement: num = q*m + r with 0 <= r < m for every positive m, i.e. (q, r) is *the*
+    floor quotient and remainder (uniqueness: lemma_div_mod_unique; product form:
+    lemma_floor_div_props), or the quotient is reported as too large.
+    neg_divisor: the function also documents negative divisors (m < r <= 0): separate clauses."""
+    g = '%s > 0 ==> ' % den if neg_divisor else ''
+    posts = [
+        ('C16.%s.quot' % tag, '%sr.is_some() ==> r.unwrap().0 == floor_quot(%s, %s as int)' % (g, num, den)),
+        ('C16.%s.rem' % tag, '%sr.is_some() ==> r.unwrap().1 == floor_rem(%s, %s as int)' % (g, num, den)),
+    ]
+    if neg_divisor:
+        posts += [
+            ('C16.%s.neg_divisor.quot' % tag,
+             '%s < 0 ==> r.is_some() ==> r.unwrap().0 == floor_quot(%s, %s as int)' % (den, num, den)),
+            ('C16.%s.neg_divisor.rem' % tag,
+             '%s < 0 ==> r.is_some() ==> r.unwrap().1 == floor_rem(%s, %s as int)' % (den, num, den)),
+        ]
+    posts += [
+        # exactly when None is returned: the quotient of the magnitudes does not fit
+        ('C16.%s.none_iff' % tag, 'r.is_none() <==> abs_int(%s) / abs_int(%s as int) > i128::MAX' % (num, den)),
+        # overflow is signalled only if the floor quotient is not a valid coefficient (|q| > i128::MAX)
+        ('C16.%s.none_only_if_unrepresentable' % tag,
+         'r.is_none() ==> abs_int(floor_quot(%s, %s as int)) > i128::MAX' % (num, den)),
+    ]
+    return posts
+
+
+def round_quot_contract():
+    """round_quot with the exact no-overflow condition (the kernel contract of core_kernel demands the
+    mode-independent `rem > 0 ==> quot < i128::MAX`, which the wide callers cannot promise)."""
+    c = core_kernel.contracts()['rounding::round_quot']
+    c.pre = ['0 < divisor <= i128::MAX as u128', 'rem < divisor']
+    c.ok = [('round_quot.result_fits',
+             'in_i128(round_div(quot * (divisor as int) + rem as int, divisor as int, eff_mode(mode)))')]
+    return c
 
 
 def contracts():
@@ -29,15 +73,76 @@ def contracts():
         post=[('C16.div64.quot', '%s == %s / (y as int)' % (Q256, X256)),
               ('C16.div64.rem', 'r == %s %% (y as int)' % X256)],
         entry=BV + ' lemma_long_div4(*xh as int, *xl as int, y as int); lemma_div_by_one(u256(*xh as int, *xl as int));')
+    d['u128_msb'] = C(
+        pre=['i != 0'],
+        post=[('u128_msb.msb', 'is_msb(i, r as int)')],
+        entry='broadcast use group_msb;')
+    d['u256_idiv_u128_special'] = C(
+        pre=['*old(xh) < y', 'y >= B64()'],
+        post=[('C16.div128s.hi_zero', '*final(xh) == 0'),
+              ('C16.div128s.quot', '*final(xl) == %s / (y as int)' % X256),
+              ('C16.div128s.rem', 'r == %s %% (y as int)' % X256),
+              ('C16.div128s.identity', '*final(xl) * y + r == %s && r < y' % X256)],
+        stub=True)
+    d['u256_idiv_u128'] = C(
+        pre=['y > 0'],
+        post=[('C16.div128.quot', '%s == %s / (y as int)' % (Q256, X256)),
+              ('C16.div128.rem', 'r == %s %% (y as int)' % X256),
+              ('C16.div128.identity', '%s * y + r == %s && r < y' % (Q256, X256))],
+        entry=BV + ' lemma_b128(); lemma_div_2step(*xh as int, *xl as int, y as int);')
+    d['i128_shifted_div_mod_floor'] = C(
+        pre=['y != 0'],
+        ok=[('shifted.p_in_range', 'p <= 38')],
+        post=_floor_posts('shifted', N_SH, 'y', neg_divisor=True),
+        entry=('lemma_b128(); lemma_pow10_pos(p as nat); lemma_abs_mul(x as int, pow10(p as nat)); '
+               'lemma_floor_from_abs(%s, y as int);' % N_SH))
+    d['i256_div_mod_floor'] = C(
+        pre=['y > 0'],
+        post=_floor_posts('i256', N_MUL, 'y'),
+        entry='lemma_b128(); lemma_abs_mul(x1 as int, x2 as int); lemma_floor_from_abs(%s, y as int);' % N_MUL)
+    # ---- rounded callers (rounding.rs)
+    nsh = '((if divisor < 0 { -(divident as int) } else { divident as int }) * pow10(p as nat))'
+    dsh = 'abs_int(divisor as int)'
+    rsh = 'round_div(%s, %s, eff_mode(mode))' % (nsh, dsh)
+    d['rounding::i128_shifted_div_rounded'] = C(
+        pre=['divisor != 0', 'divident > i128::MIN', 'divisor > i128::MIN'],
+        ok=[('shifted_div_rounded.p_in_range', 'p <= 38'),
+            ('shifted_div_rounded.no_overflow_in_rounding',
+             'abs_int(%s) / %s <= i128::MAX ==> in_i128(%s)' % (nsh, dsh, rsh))],
+        post=[('C16.shifted_div_rounded.value', 'r.is_some() ==> r.unwrap() == %s' % rsh),
+              ('C16.shifted_div_rounded.none_iff', 'r.is_none() <==> abs_int(%s) / %s > i128::MAX' % (nsh, dsh)),
+              ('C16.shifted_div_rounded.none_only_if_unrepresentable', 'r.is_none() ==> abs_int(%s) > i128::MAX' % rsh)],
+        entry=('lemma_abs_mul(divident as int, pow10(p as nat)); lemma_abs_mul(-(divident as int), pow10(p as nat)); '
+               'lemma_floor_div_props(%s, %s); '
+               'if abs_int(%s) / %s > i128::MAX { lemma_round_div_big(%s, %s, eff_mode(mode)); }'
+               % (nsh, dsh, nsh, dsh, nsh, dsh)))
+    nm = '(x * y)'
+    dm = 'pow10(p as nat)'
+    rm = 'round_div(%s, %s, eff_mode(mode))' % (nm, dm)
+    d['rounding::i128_mul_div_ten_pow_rounded'] = C(
+        ok=[('mul_div_ten_pow_rounded.p_in_range', 'p <= 38'),
+            ('mul_div_ten_pow_rounded.no_overflow_in_rounding',
+             'abs_int(%s) / %s <= i128::MAX ==> in_i128(%s)' % (nm, dm, rm))],
+        post=[('C16.mul_div_ten_pow_rounded.value', 'r.is_some() ==> r.unwrap() == %s' % rm),
+              ('C16.mul_div_ten_pow_rounded.none_iff', 'r.is_none() <==> abs_int(%s) / %s > i128::MAX' % (nm, dm)),
+              ('C16.mul_div_ten_pow_rounded.none_only_if_unrepresentable', 'r.is_none() ==> abs_int(%s) > i128::MAX' % rm)],
+        entry=('lemma_pow10_pos(p as nat); lemma_pow10_values(); if p <= 38 { lemma_pow10_mono(p as nat, 38); '
+               'lemma_floor_div_props(%s, %s); '
+               'if abs_int(%s) / %s > i128::MAX { lemma_round_div_big(%s, %s, eff_mode(mode)); } }'
+               % (nm, dm, nm, dm, nm, dm)))
     return d
 
 
-ORDER = ['u128_hi', 'u128_lo', 'u128_mul_u128', 'u256_idiv_u64']
+ORDER = ['u128_msb', 'u128_hi', 'u128_lo', 'u128_mul_u128', 'u256_idiv_u64', 'u256_idiv_u128_special',
+         'u256_idiv_u128', 'i128_shifted_div_mod_floor', 'i256_div_mod_floor']
+ROUNDED = ['rounding::i128_shifted_div_rounded', 'rounding::i128_mul_div_ten_pow_rounded']
 
 
-def add_wide_items(u, verify=False):
+def add_wide_items(u, verify=False, rounded=True):
+    """Emit the wide-arithmetic functions of fpdec-core into unit `u` (after core_kernel.add_core_items).
+    verify=False: as external_body stubs carrying the contracts proved in unit `wide`."""
     cs = contracts()
-    for k in ORDER:
+    for k in ORDER + (ROUNDED if rounded else []):
         c = cs[k]
         if not verify:
             c.stub = True
@@ -47,6 +152,14 @@ def add_wide_items(u, verify=False):
 
 def build():
     u = Unit('wide', specs=['base.rs', 'rounding.rs', 'std_assumed.rs', 'wide.rs'])
-    core_kernel.add_core_items(u)
+    cs = core_kernel.contracts()
+    u.item('core', 'rounding::enum RoundingMode')
+    u.raw(core_kernel.R5_DEFAULT, 'R5')
+    u.item('core', 'powers_of_ten::const POWERS_OF_10')
+    tp = cs['powers_of_ten::ten_pow']
+    tp.stub = True
+    u.fn('core', 'powers_of_ten::ten_pow', tp)
+    # round_quot is re-verified here (real body) under the exact no-overflow condition
+    u.fn('core', 'rounding::round_quot', round_quot_contract())
     add_wide_items(u, verify=True)
     return u
